@@ -274,7 +274,7 @@ add("emit_step", "h_emit.c", "h_emit_step", {"C09": "quick", "C05": "quick", "C0
            "inductive step: any sequence of buffers follows",
     assumptions=["the six resume states are interpreted as (pending byte, previous byte, run length so far, copies left) - pre-state constructor of h_emit_step"],
     outside=["count bytes above 2 / buffers above 3 bytes per call (loop bodies repeat)"])
-add("emit_step_long", "h_emit.c", "h_emit_step", {"C09": "quick", "C05": "thorough", "C06": "thorough"}, defines=["-DNB=6", "-DVMAX=1", "-DMB=5"], extra_src=["crctab.c"],
+add("emit_step_long", "h_emit.c", "h_emit_step", {"C09": "quick", "C01": "quick", "C05": "thorough", "C06": "thorough"}, defines=["-DNB=6", "-DVMAX=1", "-DMB=5"], extra_src=["crctab.c"],
     cbmc=["--unwind", "20", "--unwindset", "emit.0:3,emit.1:3,emit.2:3,emit.3:3,emit.4:7"], backend="kissat", timeout=900, mem_gb=8, functions=EMIT_FUNCS,
     witnesses=["suspended_with_fresh_byte_pending", "suspended_inside_run_expansion", "suspended_before_fourth_equal_byte", "block_finished", "missing_run_length"],
     bounds="ONE emit() call from each of the six resume states, remaining count 0..6, IBWT list of 6 entries (byte values 0..1), output buffer of 1..5 bytes (long enough to run through a whole counted run inside the main loop)",
@@ -367,7 +367,7 @@ for _e, _w in (("emit", ["emit_enabled", "emit_needs_another_buffer"]), ("reorde
                ("parse", ["parse_enabled", "parser_finds_block", "parser_needs_input", "parser_finishes"]),
                ("retrieve", ["retrieve_enabled", "retrieve_needs_input", "refuted_candidate_aborted"]), ("scan", ["scan_enabled", "candidate_reported"]),
                ("write_complete", ["write_completes"]), ("terminate", ["terminates"])):
-    add("rgx_" + _e, "h_expand_rg.c", "h_rgx_" + _e, {"C11": "quick", "C13": "quick"}, cbmc=["--unwind", "10"], object_bits=10, backend="kissat", timeout=1500, mem_gb=6,
+    add("rgx_" + _e, "h_expand_rg.c", "h_rgx_" + _e, {"C11": "quick", "C13": "quick", "C10": "quick"} if _e in ("retrieve", "emit", "scan", "parse", "reorder") else {"C11": "quick", "C13": "quick"}, cbmc=["--unwind", "10"], object_bits=10, backend="kissat", timeout=1500, mem_gb=6,
         functions=["src/expand.c:do_%s / can_%s" % (_e, _e) if _e not in ("write_complete", "terminate") else "src/expand.c:on_write_complete" if _e == "write_complete" else "src/expand.c:can_terminate",
                    "src/expand.c:attach", "src/expand.c:detach", "src/expand.c:advance", "src/expand.c:init", "src/process.h:queue macros"],
         witnesses=_w, bounds=RGXB, assumptions=RGX_ASM,
